@@ -382,6 +382,11 @@ pub fn fork_cycle<const V: usize>(e: &mut Exec<V>) {
         }
         ordinals.push(ord);
     }
+    e.check_events();
+    if let Some(v) = e.sched.at_all_workers_exited() {
+        e.violate(v.property, v.signature, v.detail);
+        return;
+    }
     ordinals.sort();
     if ordinals != (0..n).collect::<Vec<_>>() {
         e.violate("C16", "exit-set", format!("prepare_to_fork: workers that exited = {:?}, expected 0..{}", ordinals, n));
@@ -449,6 +454,14 @@ pub fn finish<const V: usize>(e: &mut Exec<V>) {
         }
     }
     e.verdict.counters.insert("c13_abstain_immortal_in_nursery_gc".into(), super::weak::IMMORTAL_NURSERY_ABSTAIN.load(Ordering::Relaxed));
+    e.check_events();
+    e.verdict.counters.insert("workers".into(), e.case.workers.max(1) as u64);
+    e.verdict.counters.insert("mutators_bound_at_end".into(), e.bound.iter().filter(|b| **b).count() as u64);
+    e.verdict.counters.insert("sched_pauses".into(), e.sched.pauses);
+    e.verdict.counters.insert("sched_stw_packets".into(), e.sched.stw_packets);
+    e.verdict.counters.insert("sched_buckets_opened_by_update".into(), e.sched.buckets_opened_by_update);
+    e.verdict.counters.insert("sched_opened_with_late_packets".into(), e.sched.opened_with_late_packets);
+    e.verdict.counters.insert("sched_max_parallel_packets".into(), e.sched.max_parallel as u64);
     e.verdict.counters.insert("oom_calls".into(), g().oom_calls.load(Ordering::SeqCst));
     e.verdict.counters.insert("block_calls".into(), g().block_calls.load(Ordering::SeqCst));
     e.verdict.counters.insert("stop_calls".into(), g().stop_calls.load(Ordering::SeqCst));
